@@ -547,6 +547,12 @@ class RefOracle(Oracle):
                 run.probes["ill_conditioned_root_skip"] += 1
                 continue
             scale = float(torch.linalg.matrix_norm(Xref, 2))
+            fi = torch.finfo(hp.precond_dtype)
+            if not (fi.tiny / fi.eps < scale < fi.max / 4):
+                # the exact root leaves the range in which the storage dtype keeps its relative precision (it underflows to
+                # subnormals / zero or overflows): a diverged trajectory, no accuracy statement applies
+                run.probes["out_of_range_skip"] += 1
+                continue
             gap = float(torch.linalg.matrix_norm(X - Xref, 2)) / max(scale, 1e-300)
             lam_scale = max(abs(math.log(max(float(A.abs().max()) * n + hp.epsilon, 1e-300))), abs(math.log(hp.epsilon)))
             scalar_slack = 2.0**-22 * lam_scale * exponent + refmodel._bc_slack(bc2, t) * exponent
